@@ -17,7 +17,7 @@ func init() {
 	ev.Register(&ev.Check{
 		ID:             "C04",
 		Level:          "exploration",
-		Rule:           "slots = annotated values with a rule set, an example obeying it and, per rule, single-rule corruptions of the example (bound -/+ one step, length +-1, non-matching string, non-member, malformed format, one item too few/many, wrong declared kind, value outside every or-alternative / referenced type). (=>) ALL shapes <= 3 (thorough 4) nodes with every scalar leaf replaced by every slot (good example) plus every slot in 12 nesting contexts (root, property, array element first/later, nested twice, inside an added user type): whenever Check succeeds Validate(example text) must succeed. (<=) every slot x every context x every corruption: Check must fail and report the byte offset of the corrupted value (renderer's offset map). Non-trivial = distinct rendered schema.",
+		Rule:           "slots = annotated values (also containers under type lists) with a rule set, an example obeying it and, per rule, single-rule corruptions of the example (bound -/+ one step, length +-1, non-matching string, non-member, malformed format, one item too few/many, wrong declared kind, value outside every or-alternative / referenced type). (=>) ALL shapes <= 3 (thorough 4) nodes with every scalar leaf replaced by every slot (good example) plus every slot in 17 nesting contexts (root, property, array element first/later, nested twice, before/after siblings that carry type lists of their own, inside an added user type): whenever Check succeeds Validate(example text) must succeed. (<=) every slot x every context x every corruption: Check must fail and report the byte offset of the corrupted value (renderer's offset map). Non-trivial = distinct rendered schema.",
 		Run:            run,
 		Replay:         replay,
 		QuickBudget:    80 * time.Second,
@@ -139,6 +139,21 @@ func slots() []Slot {
 			}
 		}
 	}
+	// type lists whose corruptions are CONTAINER examples (an empty object / array
+	// where only scalar kinds, or only the other container kind, are admitted)
+	contBad := func(rules ...gen.Rule) []*gen.Node {
+		return []*gen.Node{gen.Obj().With(rules...), gen.Arr().With(rules...)}
+	}
+	orNames := gen.RL("or", lits(`"integer"`, `"string"`)...)
+	orSets := gen.RL("or", gen.RuleItem{Set: []gen.Rule{R("type", `"integer"`)}}, gen.RuleItem{Set: []gen.Rule{R("type", `"string"`), R("minLength", "1")}})
+	orRefs := gen.RL("or", lits(`"@Int"`, `"@Str"`)...)
+	ss = append(ss,
+		Slot{"or-names-container", sc1(gen.KInt, "1", orNames), append(contBad(orNames), sc1(gen.KBool, "true", orNames))},
+		Slot{"or-sets-container", sc1(gen.KStr, `"s"`, orSets), contBad(orSets)},
+		Slot{"or-refs-container", sc1(gen.KInt, "1", orRefs), contBad(orRefs)},
+		Slot{"or-object-only", gen.Obj().With(gen.RL("or", lits(`"object"`, `"string"`)...)), []*gen.Node{gen.Arr().With(gen.RL("or", lits(`"object"`, `"string"`)...))}},
+		Slot{"or-array-only", gen.Arr().With(gen.RL("or", lits(`"array"`, `"integer"`)...)), []*gen.Node{gen.Obj().With(gen.RL("or", lits(`"array"`, `"integer"`)...))}},
+	)
 	ss = append(ss,
 		Slot{"minItems", arr([]string{"1", "2"}, R("minItems", "2")), []*gen.Node{arr([]string{"1"}, R("minItems", "2"))}},
 		Slot{"maxItems", arr([]string{"1"}, R("maxItems", "1")), []*gen.Node{arr([]string{"1", "2"}, R("maxItems", "1")), arr([]string{"1", "2", "3"}, R("maxItems", "1"))}},
@@ -184,6 +199,20 @@ func contexts() []Context {
 		{"object-in-array", id(func(s *gen.Node) *gen.Node { return gen.Arr(gen.Obj(gen.P("a", s))) }), false},
 		{"array-in-object", id(func(s *gen.Node) *gen.Node { return gen.Obj(gen.P("a", gen.Arr(gen.Int("1"), s))) }), false},
 		{"nested-objects", id(func(s *gen.Node) *gen.Node { return gen.Obj(gen.P("a", gen.Obj(gen.P("b", gen.Obj(gen.P("c", s)))))) }), false},
+		// siblings that carry type lists of their own (admitting other kinds) before
+		// and after the slot: what one node admits must not leak into the next
+		{"after-or-object-sibling", id(func(s *gen.Node) *gen.Node {
+			return gen.Obj(gen.P("z", gen.Obj().With(gen.RL("or", lits(`"object"`, `"array"`, `"boolean"`)...))), gen.P("a", s))
+		}), false},
+		{"after-or-array-sibling-item", id(func(s *gen.Node) *gen.Node {
+			return gen.Arr(gen.Arr().With(gen.RL("or", lits(`"array"`, `"object"`, `"boolean"`)...)), s)
+		}), false},
+		{"after-shortcut-sibling", id(func(s *gen.Node) *gen.Node {
+			return gen.Obj(gen.P("z", gen.Ref("@Obj", "@Arr")), gen.P("y", gen.Ref("@Int")), gen.P("a", s))
+		}), false},
+		{"before-or-object-sibling", id(func(s *gen.Node) *gen.Node {
+			return gen.Obj(gen.P("a", s), gen.P("z", gen.Obj().With(gen.RL("or", lits(`"object"`, `"array"`, `"boolean"`)...))))
+		}), false},
 		{"in-type-root", func(s *gen.Node) (*gen.Node, []sc.TypeDecl) {
 			return gen.Ref("@W"), []sc.TypeDecl{{Name: "@W", Body: s}}
 		}, true},
@@ -221,8 +250,20 @@ func build(cs caseT) (sc.Case, *gen.Node, bool, bool) {
 			var slotNode *gen.Node
 			find := func(r *gen.Node) {
 				r.Walk(func(x *gen.Node) {
-					if x.Kind == n.Kind && x.Lit == n.Lit && len(x.Items) == len(n.Items) && len(x.Rules) >= len(n.Rules) && len(n.Rules) > 0 && x.Rules[0].Name == n.Rules[0].Name {
-						slotNode = x
+					if x == n {
+						slotNode = x // identity wins over shape (siblings may look alike)
+					}
+					if slotNode == n {
+						return
+					}
+					if x.Kind == n.Kind && x.Lit == n.Lit && len(x.Items) == len(n.Items) && len(x.Rules) >= len(n.Rules) && len(n.Rules) > 0 {
+						same := true
+						for i := range n.Rules {
+							same = same && x.Rules[i].Name == n.Rules[i].Name && x.Rules[i].ValText() == n.Rules[i].ValText()
+						}
+						if same {
+							slotNode = x
+						}
 					}
 				})
 			}
